@@ -110,9 +110,481 @@ theorem enum2_spec {content : Bytes → Bytes} {A B : SMap Bytes} (hA : Good con
   have hR : ∀ e ∈ enumOf (union A B) after limit, e.2 = (content e.1).length := by
     intro e he
     exact good_sizes_entry hU p e (List.mem_of_mem_take he)
-  have e1 := eq_map_keys _ _ hL
-  have e2 := eq_map_keys _ _ hR
+  have e1 := eq_map_keys (fun k => (content k).length) _ hL
+  have e2 := eq_map_keys (fun k => (content k).length) _ hR
   rw [e1, e2, hkeys]
   simp only [enumOf, MergedEnum.keys, List.map_take]
+  rfl
+
+/-! ### union algebra (all by `SMap.ext`) -/
+
+theorem has_false_get {V : Type} {m : SMap V} {k : Bytes} (h : has m k = false) : SMap.get m k = none := by
+  unfold has at h
+  cases hg : SMap.get m k with
+  | none => rfl
+  | some v => rw [hg] at h; cases h
+
+theorem union_ins_left {V : Type} (k : Bytes) (v : V) (A : SMap V) {B : SMap V} (hB : KAsc B) :
+    union (ins k v A) B = ins k v (union A B) := by
+  apply SMap.ext (kasc_union _ hB) (kasc_ins _ _ (kasc_union _ hB))
+  intro x
+  rw [get_union, get_ins, get_ins, get_union]
+  by_cases hx : x = k <;> simp [hx]
+
+theorem union_ins_right {V : Type} (k : Bytes) (v : V) {A B : SMap V} (hB : KAsc B)
+    (hk : has A k = false) : union A (ins k v B) = ins k v (union A B) := by
+  apply SMap.ext (kasc_union _ (kasc_ins _ _ hB)) (kasc_ins _ _ (kasc_union _ hB))
+  intro x
+  rw [get_union, get_ins, get_ins, get_union]
+  by_cases hx : x = k
+  · subst hx; simp [has_false_get hk]
+  · simp [hx]
+
+theorem union_del_both {V : Type} (k : Bytes) {A B : SMap V} (hA : KAsc A) (hB : KAsc B) :
+    union (del k A) (del k B) = del k (union A B) := by
+  apply SMap.ext (kasc_union _ (kasc_del _ hB)) (kasc_del _ (kasc_union _ hB))
+  intro x
+  rw [get_union, get_del k hA, get_del k hB, get_del k (kasc_union _ hB), get_union]
+  by_cases hx : x = k <;> simp [hx]
+
+theorem del_eq_self {V : Type} (k : Bytes) {A : SMap V} (hA : KAsc A) (hk : has A k = false) :
+    del k A = A := by
+  apply SMap.ext (kasc_del _ hA) hA
+  intro x
+  rw [get_del k hA]
+  by_cases hx : x = k
+  · subst hx; simp [has_false_get hk]
+  · simp [hx]
+
+theorem union_self {V : Type} {A : SMap V} (hA : KAsc A) : union A A = A := by
+  apply SMap.ext (kasc_union _ hA) hA
+  intro x
+  rw [get_union]
+  cases SMap.get A x <;> rfl
+
+/-! ### operations on one side of a union -/
+
+/-- the key an operation addresses (enumerate addresses none) -/
+def opKey : Op → Bytes
+  | .recv k _ => k
+  | .fetch k => k
+  | .stat k => k
+  | .rm k => k
+  | .enum _ _ => []
+
+def opIsEnum : Op → Bool
+  | .enum _ _ => true
+  | _ => false
+
+def opIsRecv : Op → Bool
+  | .recv _ _ => true
+  | _ => false
+
+theorem next_union_left {A B : SMap Bytes} (hA : KAsc A) (hB : KAsc B) (op : Op)
+    (hk : has B (opKey op) = false) : union (next A op) B = next (union A B) op := by
+  cases op with
+  | recv k v =>
+    simp only [opKey] at hk
+    simp only [next, has_union, hk, Bool.or_false]
+    by_cases h : has A k = true
+    · simp [h]
+    · simp only [h, Bool.false_eq_true, if_false]; exact union_ins_left k v A hB
+  | rm k =>
+    simp only [opKey] at hk
+    simp only [next]
+    rw [← union_del_both k hA hB, del_eq_self k hB hk]
+  | fetch _ => rfl
+  | stat _ => rfl
+  | enum _ _ => rfl
+
+theorem next_union_right {A B : SMap Bytes} (hA : KAsc A) (hB : KAsc B) (op : Op)
+    (hk : has A (opKey op) = false) : union A (next B op) = next (union A B) op := by
+  cases op with
+  | recv k v =>
+    simp only [opKey] at hk
+    simp only [next, has_union, hk, Bool.false_or]
+    by_cases h : has B k = true
+    · simp [h]
+    · simp only [h, Bool.false_eq_true, if_false]; exact union_ins_right k v hB hk
+  | rm k =>
+    simp only [opKey] at hk
+    simp only [next]
+    rw [← union_del_both k hA hB, del_eq_self k hA hk]
+  | fetch _ => rfl
+  | stat _ => rfl
+  | enum _ _ => rfl
+
+theorem out_union_left {A B : SMap Bytes} (op : Op) (hne : opIsEnum op = false)
+    (hk : has B (opKey op) = false) : out A op = out (union A B) op := by
+  cases op with
+  | enum _ _ => cases hne
+  | recv _ _ => rfl
+  | rm _ => rfl
+  | fetch k =>
+    simp only [opKey] at hk
+    simp only [out, get_union, has_false_get hk]
+    cases SMap.get A k <;> rfl
+  | stat k =>
+    simp only [opKey] at hk
+    simp only [out, get_union, has_false_get hk]
+    cases SMap.get A k <;> rfl
+
+theorem out_union_right {A B : SMap Bytes} (op : Op) (hne : opIsEnum op = false)
+    (hk : has A (opKey op) = false) : out B op = out (union A B) op := by
+  cases op with
+  | enum _ _ => cases hne
+  | recv _ _ => rfl
+  | rm _ => rfl
+  | fetch k =>
+    simp only [opKey] at hk
+    simp only [out, get_union, has_false_get hk]
+  | stat k =>
+    simp only [opKey] at hk
+    simp only [out, get_union, has_false_get hk]
+
+/-- the only key an operation can add is the one a receive addresses -/
+theorem has_next {m : SMap Bytes} (hm : KAsc m) (op : Op) (x : Bytes) (h : has (next m op) x = true) :
+    has m x = true ∨ (opIsRecv op = true ∧ x = opKey op) := by
+  cases op with
+  | recv k v =>
+    simp only [next] at h
+    by_cases hh : has m k = true
+    · simp only [hh, if_true] at h; exact Or.inl h
+    · simp only [hh, Bool.false_eq_true, if_false, has_ins, Bool.or_eq_true, decide_eq_true_eq] at h
+      rcases h with h | h
+      · exact Or.inr ⟨rfl, h⟩
+      · exact Or.inl h
+  | rm k =>
+    simp only [next, has_del k hm, Bool.and_eq_true] at h
+    exact Or.inl h.2
+  | fetch _ => exact Or.inl h
+  | stat _ => exact Or.inl h
+  | enum _ _ => exact Or.inl h
+
+/-! ### the merged enumeration of two refining sub-stores -/
+
+theorem enum2_ok {content : Bytes → Bytes} {a b : Impl} (Ra : Refines content a)
+    (Rb : Refines content b) (sa : a.σ) (sb : b.σ) (ha : Ra.Inv sa) (hb : Rb.Inv sb)
+    (after : Bytes) (limit : Nat) :
+    (enum2 a b sa sb after limit).2.2 = .refs (enumOf (union (Ra.abs sa) (Rb.abs sb)) after limit) ∧
+    Ra.abs (enum2 a b sa sb after limit).1 = Ra.abs sa ∧ Ra.Inv (enum2 a b sa sb after limit).1 ∧
+    Rb.abs (enum2 a b sa sb after limit).2.1 = Rb.abs sb ∧ Rb.Inv (enum2 a b sa sb after limit).2.1 := by
+  obtain ⟨hoa, haa, hia⟩ := Ra.step_ok sa (.enum after limit) ha trivial
+  obtain ⟨hob, hab, hib⟩ := Rb.step_ok sb (.enum after limit) hb trivial
+  unfold enum2
+  generalize a.step sa (.enum after limit) = pa at hoa haa hia
+  generalize b.step sb (.enum after limit) = pb at hob hab hib
+  obtain ⟨sa1, oa⟩ := pa
+  obtain ⟨sb1, ob⟩ := pb
+  simp only [out, next] at hoa haa hia hob hab hib
+  subst hoa hob
+  simp only
+  exact ⟨by rw [enum2_spec (Ra.good sa ha) (Rb.good sb hb)], haa, hia, hab, hib⟩
+
+/-! ### two stores holding disjoint parts of the key space -/
+
+/-- both sub-invariants hold, `a` holds only keys on side `false`, `b` only keys on side `true` -/
+def PartInv {content : Bytes → Bytes} {a b : Impl} (Ra : Refines content a) (Rb : Refines content b)
+    (side : Bytes → Bool) (s : a.σ × b.σ) : Prop :=
+  Ra.Inv s.1 ∧ Rb.Inv s.2 ∧
+  (∀ k, has (Ra.abs s.1) k = true → side k = false) ∧
+  (∀ k, has (Rb.abs s.2) k = true → side k = true)
+
+theorem has_false_of_side {m : SMap Bytes} {side : Bytes → Bool} {c : Bool}
+    (h : ∀ k, has m k = true → side k = c) (k : Bytes) (hk : side k = !c) : has m k = false := by
+  cases hh : has m k with
+  | false => rfl
+  | true => have := h k hh; rw [this] at hk; cases c <;> cases hk
+
+/-- a keyed operation sent to `a` only, its key being on `a`'s side -/
+theorem part_left {content : Bytes → Bytes} {a b : Impl} (Ra : Refines content a)
+    (Rb : Refines content b) (side : Bytes → Bool) (sa : a.σ) (sb : b.σ) (op : Op)
+    (hne : opIsEnum op = false) (hI : PartInv Ra Rb side (sa, sb)) (hop : op.WK content)
+    (hs : side (opKey op) = false) :
+    (a.step sa op).2 = out (union (Ra.abs sa) (Rb.abs sb)) op ∧
+    union (Ra.abs (a.step sa op).1) (Rb.abs sb) = next (union (Ra.abs sa) (Rb.abs sb)) op ∧
+    PartInv Ra Rb side ((a.step sa op).1, sb) := by
+  obtain ⟨hRa, hRb, hA, hB⟩ := hI
+  obtain ⟨ho, ha, hi⟩ := Ra.step_ok sa op hRa hop
+  have hk : has (Rb.abs sb) (opKey op) = false := has_false_of_side hB _ (by simp [hs])
+  refine ⟨?_, ?_, hi, hRb, ?_, hB⟩
+  · rw [ho]; exact out_union_left op hne hk
+  · rw [ha]; exact next_union_left (Ra.good sa hRa).1 (Rb.good sb hRb).1 op hk
+  · intro k hh
+    rw [ha] at hh
+    rcases has_next (Ra.good sa hRa).1 op k hh with h | ⟨_, h⟩
+    · exact hA k h
+    · rw [h]; exact hs
+
+/-- a keyed operation sent to `b` only, its key being on `b`'s side -/
+theorem part_right {content : Bytes → Bytes} {a b : Impl} (Ra : Refines content a)
+    (Rb : Refines content b) (side : Bytes → Bool) (sa : a.σ) (sb : b.σ) (op : Op)
+    (hne : opIsEnum op = false) (hI : PartInv Ra Rb side (sa, sb)) (hop : op.WK content)
+    (hs : side (opKey op) = true) :
+    (b.step sb op).2 = out (union (Ra.abs sa) (Rb.abs sb)) op ∧
+    union (Ra.abs sa) (Rb.abs (b.step sb op).1) = next (union (Ra.abs sa) (Rb.abs sb)) op ∧
+    PartInv Ra Rb side (sa, (b.step sb op).1) := by
+  obtain ⟨hRa, hRb, hA, hB⟩ := hI
+  obtain ⟨ho, ha, hi⟩ := Rb.step_ok sb op hRb hop
+  have hk : has (Ra.abs sa) (opKey op) = false := has_false_of_side hA _ (by simp [hs])
+  refine ⟨?_, ?_, hRa, hi, hA, ?_⟩
+  · rw [ho]; exact out_union_right op hne hk
+  · rw [ha]; exact next_union_right (Ra.good sa hRa).1 (Rb.good sb hRb).1 op hk
+  · intro k hh
+    rw [ha] at hh
+    rcases has_next (Rb.good sb hRb).1 op k hh with h | ⟨_, h⟩
+    · exact hB k h
+    · rw [h]; exact hs
+
+theorem part_enum {content : Bytes → Bytes} {a b : Impl} (Ra : Refines content a)
+    (Rb : Refines content b) (side : Bytes → Bool) (sa : a.σ) (sb : b.σ) (after : Bytes) (limit : Nat)
+    (hI : PartInv Ra Rb side (sa, sb)) :
+    (enum2 a b sa sb after limit).2.2 = out (union (Ra.abs sa) (Rb.abs sb)) (.enum after limit) ∧
+    union (Ra.abs (enum2 a b sa sb after limit).1) (Rb.abs (enum2 a b sa sb after limit).2.1) =
+      union (Ra.abs sa) (Rb.abs sb) ∧
+    PartInv Ra Rb side ((enum2 a b sa sb after limit).1, (enum2 a b sa sb after limit).2.1) := by
+  obtain ⟨hRa, hRb, hA, hB⟩ := hI
+  obtain ⟨ho, haa, hia, hab, hib⟩ := enum2_ok Ra Rb sa sb hRa hRb after limit
+  refine ⟨ho, by rw [haa, hab], hia, hib, ?_, ?_⟩
+  · intro k hh; rw [haa] at hh; exact hA k hh
+  · intro k hh; rw [hab] at hh; exact hB k hh
+
+/-! ### 2. shard -/
+
+def shard2Refines {content : Bytes → Bytes} (route : Bytes → Bool) {a b : Impl}
+    (Ra : Refines content a) (Rb : Refines content b) : Refines content (shard2Impl route a b) where
+  abs := fun s => union (Ra.abs s.1) (Rb.abs s.2)
+  Inv := PartInv Ra Rb route
+  init_inv := ⟨Ra.init_inv, Rb.init_inv,
+    by intro k h; simp [shard2Impl, Ra.init_abs, has, SMap.get] at h,
+    by intro k h; simp [shard2Impl, Rb.init_abs, has, SMap.get] at h⟩
+  init_abs := by simp [shard2Impl, Ra.init_abs, Rb.init_abs, union]
+  good := fun s h => good_union (Ra.good _ h.1) (Rb.good _ h.2.1)
+  step_ok := by
+    rintro ⟨sa, sb⟩ op hI hop
+    cases op with
+    | enum after limit => exact part_enum Ra Rb route sa sb after limit hI
+    | recv k v =>
+      simp only [shard2Impl]
+      by_cases hr : route k = true
+      · simp only [hr, if_true]; exact part_right Ra Rb route sa sb _ rfl hI hop hr
+      · have hr' : route k = false := by cases h : route k <;> simp_all
+        simp only [hr', Bool.false_eq_true, if_false]; exact part_left Ra Rb route sa sb _ rfl hI hop hr'
+    | fetch k =>
+      simp only [shard2Impl]
+      by_cases hr : route k = true
+      · simp only [hr, if_true]; exact part_right Ra Rb route sa sb _ rfl hI hop hr
+      · have hr' : route k = false := by cases h : route k <;> simp_all
+        simp only [hr', Bool.false_eq_true, if_false]; exact part_left Ra Rb route sa sb _ rfl hI hop hr'
+    | stat k =>
+      simp only [shard2Impl]
+      by_cases hr : route k = true
+      · simp only [hr, if_true]; exact part_right Ra Rb route sa sb _ rfl hI hop hr
+      · have hr' : route k = false := by cases h : route k <;> simp_all
+        simp only [hr', Bool.false_eq_true, if_false]; exact part_left Ra Rb route sa sb _ rfl hI hop hr'
+    | rm k =>
+      simp only [shard2Impl]
+      by_cases hr : route k = true
+      · simp only [hr, if_true]; exact part_right Ra Rb route sa sb _ rfl hI hop hr
+      · have hr' : route k = false := by cases h : route k <;> simp_all
+        simp only [hr', Bool.false_eq_true, if_false]; exact part_left Ra Rb route sa sb _ rfl hI hop hr'
+
+/-! ### replica-style reads and removes over two refining stores (no relation between them needed) -/
+
+theorem next_union_both {A B : SMap Bytes} (hA : KAsc A) (hB : KAsc B) (op : Op)
+    (hnr : opIsRecv op = false) : union (next A op) (next B op) = next (union A B) op := by
+  cases op with
+  | recv _ _ => cases hnr
+  | rm k => exact union_del_both k hA hB
+  | fetch _ => rfl
+  | stat _ => rfl
+  | enum _ _ => rfl
+
+theorem replica_fetch_eq (a b : Impl) (sa : a.σ) (sb : b.σ) (k : Bytes) :
+    (replica2Impl a b).step (sa, sb) (.fetch k) =
+      (match a.step sa (.fetch k) with
+       | (sa1, .bytes v) => ((sa1, sb), .bytes v)
+       | (sa1, _) =>
+         match b.step sb (.fetch k) with
+         | (sb1, o) => ((sa1, sb1), o)) := rfl
+
+/-- fetch, stat, remove and enumerate of `replica[a, b]` answer as the left-biased union of the two
+contents does, and act on each side as the same operation -/
+theorem replica_nonrecv_ok {content : Bytes → Bytes} {a b : Impl} (Ra : Refines content a)
+    (Rb : Refines content b) (sa : a.σ) (sb : b.σ) (op : Op) (hnr : opIsRecv op = false)
+    (ha : Ra.Inv sa) (hb : Rb.Inv sb) :
+    ((replica2Impl a b).step (sa, sb) op).2 = out (union (Ra.abs sa) (Rb.abs sb)) op ∧
+    Ra.abs ((replica2Impl a b).step (sa, sb) op).1.1 = next (Ra.abs sa) op ∧
+    Rb.abs ((replica2Impl a b).step (sa, sb) op).1.2 = next (Rb.abs sb) op ∧
+    Ra.Inv ((replica2Impl a b).step (sa, sb) op).1.1 ∧
+    Rb.Inv ((replica2Impl a b).step (sa, sb) op).1.2 := by
+  cases op with
+  | recv _ _ => cases hnr
+  | enum after limit =>
+    obtain ⟨ho, haa, hia, hab, hib⟩ := enum2_ok Ra Rb sa sb ha hb after limit
+    exact ⟨ho, haa, hab, hia, hib⟩
+  | rm k =>
+    obtain ⟨hoa, haa, hia⟩ := Ra.step_ok sa (.rm k) ha trivial
+    obtain ⟨hob, hab, hib⟩ := Rb.step_ok sb (.rm k) hb trivial
+    simp only [replica2Impl]
+    generalize a.step sa (.rm k) = pa at hoa haa hia
+    generalize b.step sb (.rm k) = pb at hob hab hib
+    obtain ⟨sa1, oa⟩ := pa
+    obtain ⟨sb1, ob⟩ := pb
+    simp only [out] at hoa hob
+    subst hoa hob
+    exact ⟨rfl, haa, hab, hia, hib⟩
+  | fetch k =>
+    obtain ⟨hoa, haa, hia⟩ := Ra.step_ok sa (.fetch k) ha trivial
+    obtain ⟨hob, hab, hib⟩ := Rb.step_ok sb (.fetch k) hb trivial
+    rw [replica_fetch_eq]
+    generalize a.step sa (.fetch k) = pa at hoa haa hia
+    generalize b.step sb (.fetch k) = pb at hob hab hib
+    obtain ⟨sa1, oa⟩ := pa
+    obtain ⟨sb1, ob⟩ := pb
+    simp only [out] at hoa hob
+    simp only [out, get_union]
+    cases hg : SMap.get (Ra.abs sa) k with
+    | some v =>
+      rw [hg] at hoa; simp only at hoa; subst hoa
+      exact ⟨rfl, haa, rfl, hia, hb⟩
+    | none =>
+      rw [hg] at hoa; simp only at hoa; subst hoa hob
+      exact ⟨rfl, haa, hab, hia, hib⟩
+  | stat k =>
+    obtain ⟨hoa, haa, hia⟩ := Ra.step_ok sa (.stat k) ha trivial
+    obtain ⟨hob, hab, hib⟩ := Rb.step_ok sb (.stat k) hb trivial
+    simp only [replica2Impl]
+    generalize a.step sa (.stat k) = pa at hoa haa hia
+    generalize b.step sb (.stat k) = pb at hob hab hib
+    obtain ⟨sa1, oa⟩ := pa
+    obtain ⟨sb1, ob⟩ := pb
+    simp only [out] at hoa hob
+    simp only [out, get_union]
+    cases hg : SMap.get (Ra.abs sa) k with
+    | some v =>
+      rw [hg] at hoa; simp only at hoa; subst hoa
+      cases hgb : SMap.get (Rb.abs sb) k with
+      | some w =>
+        rw [hgb] at hob; simp only at hob; subst hob
+        exact ⟨rfl, haa, hab, hia, hib⟩
+      | none =>
+        rw [hgb] at hob; simp only at hob; subst hob
+        exact ⟨rfl, haa, hab, hia, hib⟩
+    | none =>
+      rw [hg] at hoa; simp only at hoa; subst hoa
+      cases hgb : SMap.get (Rb.abs sb) k with
+      | some w =>
+        rw [hgb] at hob; simp only at hob; subst hob
+        exact ⟨rfl, haa, hab, hia, hib⟩
+      | none =>
+        rw [hgb] at hob; simp only at hob; subst hob
+        exact ⟨rfl, haa, hab, hia, hib⟩
+
+/-! ### 3. replica -/
+
+def replica2Refines {content : Bytes → Bytes} {a b : Impl} (Ra : Refines content a)
+    (Rb : Refines content b) : Refines content (replica2Impl a b) where
+  abs := fun s => Ra.abs s.1
+  Inv := fun s => Ra.Inv s.1 ∧ Rb.Inv s.2 ∧ Ra.abs s.1 = Rb.abs s.2
+  init_inv := ⟨Ra.init_inv, Rb.init_inv, by simp [replica2Impl, Ra.init_abs, Rb.init_abs]⟩
+  init_abs := Ra.init_abs
+  good := fun s h => Ra.good _ h.1
+  step_ok := by
+    rintro ⟨sa, sb⟩ op ⟨hRa, hRb, hE⟩ hop
+    have key : opIsRecv op = false →
+        ((replica2Impl a b).step (sa, sb) op).2 = out (Ra.abs sa) op ∧
+        Ra.abs ((replica2Impl a b).step (sa, sb) op).1.1 = next (Ra.abs sa) op ∧
+        Ra.Inv ((replica2Impl a b).step (sa, sb) op).1.1 ∧
+        Rb.Inv ((replica2Impl a b).step (sa, sb) op).1.2 ∧
+        Ra.abs ((replica2Impl a b).step (sa, sb) op).1.1 =
+          Rb.abs ((replica2Impl a b).step (sa, sb) op).1.2 := by
+      intro hnr
+      obtain ⟨ho, haa, hab, hia, hib⟩ := replica_nonrecv_ok Ra Rb sa sb op hnr hRa hRb
+      simp only at hE
+      refine ⟨?_, haa, hia, hib, ?_⟩
+      · rw [ho, ← hE, union_self (Ra.good sa hRa).1]
+      · rw [haa, hab, hE]
+    cases op with
+    | fetch k => exact key rfl
+    | stat k => exact key rfl
+    | rm k => exact key rfl
+    | enum after limit => exact key rfl
+    | recv k v =>
+      obtain ⟨hoa, haa, hia⟩ := Ra.step_ok sa (.recv k v) hRa hop
+      obtain ⟨hob, hab, hib⟩ := Rb.step_ok sb (.recv k v) hRb hop
+      simp only [replica2Impl]
+      generalize a.step sa (.recv k v) = pa at hoa haa hia
+      generalize b.step sb (.recv k v) = pb at hob hab hib
+      obtain ⟨sa1, oa⟩ := pa
+      obtain ⟨sb1, ob⟩ := pb
+      simp only [out] at hoa hob
+      subst hoa hob
+      simp only at hE haa hab
+      exact ⟨by simp [out], haa, hia, hib, by rw [haa, hab, hE]⟩
+
+/-! ### 4. cond -/
+
+/-- replica-style fetch, stat, remove and enumerate over two stores holding disjoint parts -/
+theorem part_both {content : Bytes → Bytes} {a b : Impl} (Ra : Refines content a)
+    (Rb : Refines content b) (side : Bytes → Bool) (sa : a.σ) (sb : b.σ) (op : Op)
+    (hnr : opIsRecv op = false) (hI : PartInv Ra Rb side (sa, sb)) :
+    ((replica2Impl a b).step (sa, sb) op).2 = out (union (Ra.abs sa) (Rb.abs sb)) op ∧
+    union (Ra.abs ((replica2Impl a b).step (sa, sb) op).1.1)
+        (Rb.abs ((replica2Impl a b).step (sa, sb) op).1.2) = next (union (Ra.abs sa) (Rb.abs sb)) op ∧
+    PartInv Ra Rb side ((replica2Impl a b).step (sa, sb) op).1 := by
+  obtain ⟨hRa, hRb, hA, hB⟩ := hI
+  obtain ⟨ho, haa, hab, hia, hib⟩ := replica_nonrecv_ok Ra Rb sa sb op hnr hRa hRb
+  refine ⟨ho, ?_, hia, hib, ?_, ?_⟩
+  · rw [haa, hab]; exact next_union_both (Ra.good sa hRa).1 (Rb.good sb hRb).1 op hnr
+  · intro k hh
+    rw [haa] at hh
+    rcases has_next (Ra.good sa hRa).1 op k hh with h | ⟨h, _⟩
+    · exact hA k h
+    · rw [hnr] at h; cases h
+  · intro k hh
+    rw [hab] at hh
+    rcases has_next (Rb.good sb hRb).1 op k hh with h | ⟨h, _⟩
+    · exact hB k h
+    · rw [hnr] at h; cases h
+
+/-- the invariant of cond: `t` holds only blobs whose content is schema, `e` only the others -/
+def CondInv {content : Bytes → Bytes} (isSchema : Bytes → Bool) {t e : Impl} (Rt : Refines content t)
+    (Re : Refines content e) (s : t.σ × e.σ) : Prop :=
+  PartInv Rt Re (fun k => !isSchema (content k)) s
+
+theorem condInv_iff {content : Bytes → Bytes} (isSchema : Bytes → Bool) {t e : Impl}
+    (Rt : Refines content t) (Re : Refines content e) (s : t.σ × e.σ) :
+    CondInv isSchema Rt Re s ↔
+      (Rt.Inv s.1 ∧ Re.Inv s.2 ∧
+       (∀ k, has (Rt.abs s.1) k = true → isSchema (content k) = true) ∧
+       (∀ k, has (Re.abs s.2) k = true → isSchema (content k) = false)) := by
+  simp [CondInv, PartInv]
+
+def cond2Refines {content : Bytes → Bytes} (isSchema : Bytes → Bool) {t e : Impl}
+    (Rt : Refines content t) (Re : Refines content e) : Refines content (cond2Impl isSchema t e) where
+  abs := fun s => union (Rt.abs s.1) (Re.abs s.2)
+  Inv := CondInv isSchema Rt Re
+  init_inv := ⟨Rt.init_inv, Re.init_inv,
+    by intro k h; simp [cond2Impl, Rt.init_abs, has, SMap.get] at h,
+    by intro k h; simp [cond2Impl, Re.init_abs, has, SMap.get] at h⟩
+  init_abs := by simp [cond2Impl, Rt.init_abs, Re.init_abs, union]
+  good := fun s h => good_union (Rt.good _ h.1) (Re.good _ h.2.1)
+  step_ok := by
+    rintro ⟨st, se⟩ op hI hop
+    cases op with
+    | fetch k => exact part_both Rt Re _ st se (.fetch k) rfl hI
+    | stat k => exact part_both Rt Re _ st se (.stat k) rfl hI
+    | rm k => exact part_both Rt Re _ st se (.rm k) rfl hI
+    | enum after limit => exact part_both Rt Re _ st se (.enum after limit) rfl hI
+    | recv k v =>
+      have hv : v = content k := hop.1
+      simp only [cond2Impl]
+      by_cases hs : isSchema v = true
+      · simp only [hs, if_true]
+        exact part_left Rt Re _ st se _ rfl hI hop (by simp [opKey, ← hv, hs])
+      · have hs' : isSchema v = false := by cases h : isSchema v <;> simp_all
+        simp only [hs', Bool.false_eq_true, if_false]
+        exact part_right Rt Re _ st se _ rfl hI hop (by simp [opKey, ← hv, hs'])
 
 end Pk.Stores
